@@ -112,12 +112,18 @@ let () =
              | "I" -> elems_z := !elems_z @ [z_of_bits ~signed:true (Int64.of_string ("0x" ^ arg 1))]
              | "U" -> elems_z := !elems_z @ [z_of_bits ~signed:false (Int64.of_string ("0x" ^ arg 1))]
              | _ -> elems_s := !elems_s @ [str_of_hex (arg 1)])
-          end else begin
+          end else if toks.(0) = "win" then
+            (* slice layout on the Go side (a window of a larger backing array); arrays are values in the
+               model, so nothing changes here *)
+            bump "window_layouts"
+          else begin
             incr algs;
             bump ("ops_" ^ toks.(0));
             let report kind what =
               mismatch !lineno !opno kind (Printf.sprintf "%s %s (n=%d): %s" head op !nelem what) in
-            if res <> "?" then
+            if String.length res >= 7 && String.sub res 0 7 = "OUTSIDE" then
+              report "api" (Printf.sprintf "implementation changed memory outside the slice it was given (%s): the enclosing slice is no longer the original around a sorted permutation" res)
+            else if res <> "?" then
             match head with
             | h when is_c h ->
               let cmp_kt = cmp_for head in
